@@ -246,11 +246,12 @@ def full_report(chk):
         native_full_sequences(chk)
         return
     # per category: no entry at all / findings / only file entries with empty line sets (= no findings)
-    for mask3 in itertools.product((False, True, 'empty'), repeat=3):
+    # ... / a file entry without lines NEXT TO one with a line (findings) / a pattern with no file entry at all (no findings)
+    for mask3 in itertools.product((False, True, 'empty', 'mixed', 'nofiles'), repeat=3):
         fs = {}
-        mask = tuple(x is True for x in mask3)
+        mask = tuple(x in (True, 'mixed') for x in mask3)
         for cat, on, v in zip(('vul', 'opt', 'qa'), mask3, ('FloatingPragma', 'Sstore', 'ConstructorOrder')):
-            fs[cat] = rl.Findings(cat, [(v, [1])] if on is True else ([(v, [0])] if on == 'empty' else []), tag=cat)
+            fs[cat] = rl.Findings(cat, {True: [(v, [1])], 'empty': [(v, [0])], 'mixed': [(v, [0, 1])], 'nofiles': [(v, [])], False: []}[on], tag=cat)
         base = sum((x.base for x in fs.values()), [])
         paths = e.explore(lambda en: en.call_mir(f, [fs['vul'].value(), fs['opt'].value(), fs['qa'].value()]), base_constraints=base)
         for r in paths:
@@ -292,7 +293,7 @@ def full_report(chk):
                 nat = chk.native.run([['fullreport', sp[0], sp[1], sp[2], d], ['report', 'vul', sp[0]], ['report', 'opt', sp[1]], ['report', 'qa', sp[2]]])
                 if all(x[0] == 'OK' for x in nat) and unhex(nat[0][1]) == ''.join(unhex(x[1]) + '\n\n' for x, on in zip(nat[1:], mask) if on):
                     chk.broken('generate_report with categories %r: the engine finds a wrong composition, the compiled code writes exactly the expected parts' % (mask3,))
-                chk.violation('full:report:category-parts', 'generate_report with categories (vul, opt, qa) = %r (True: findings, False: no entry, empty: only file entries without lines) does not consist of exactly the parts of the categories that have findings' % (mask3,),
+                chk.violation('full:report:category-parts', 'generate_report with categories (vul, opt, qa) = %r (True: findings, False: no entry, empty: only file entries without lines, mixed: an entry without lines next to one with a line, nofiles: a pattern without file entries) does not consist of exactly the parts of the categories that have findings' % (mask3,),
                               {'job': 'fullreport', 'categories': [str(x) for x in mask3], 'specs': sp, 'observed': unhex(nat[0][1])[:400] if nat[0][0] == 'OK' else nat[0]})
     native_full_sequences(chk)
     chk.sample({'generate_report': 'all 27 combinations of absent / with findings / only empty line sets per category, one write to solstat_report.md'})
